@@ -630,7 +630,12 @@ class Program:
                 self.statics.append(st)
             for a in j["local_adts"]:
                 a["crate"] = tag
-                self.local_adts[norm(a["path"])] = a
+                key = norm(a["path"])
+                n = 2
+                while key in self.local_adts:
+                    key = "%s#%d" % (norm(a["path"]), n)
+                    n += 1
+                self.local_adts[key] = a
             for a in j["adts"]:
                 self.adts.setdefault(norm(a["path"]), a)
             for c in j["const_arrays"]:
